@@ -11,6 +11,7 @@ use std::io::{BufWriter, Write};
 
 mod c01;
 mod c02;
+mod bomb;
 mod corpus;
 mod c03;
 mod c04;
@@ -254,13 +255,13 @@ pub fn eval(out: &mut Out, req: &str) -> String {
     r.unwrap_or_else(|| "bad-op".to_string())
 }
 
-/// Does decoding this message cost more than any message this harness builds on purpose?  (A few bytes can
-/// announce a vector of 2^40 zero-sized elements; without a decoding quota the decoder — and the specification's
-/// reader — then iterate that many times.  The properties bound the work only under a quota, so such a message is
-/// not sent to an unmetered entry point: it would only stall the run.)
+/// Is this a message whose values announce millions of zero-sized vector elements?  (A few bytes can announce a
+/// vector of 2^40 `null`s; without a decoding quota the decoder — and the specification's reader, which reads every
+/// wire value in full — then iterate that many times.  The properties bound the work only under a quota, so such a
+/// message is not sent to those entry points: it would only stall the run.)  The test is made by an independent
+/// walker (`bomb.rs`), not by the decoder under test.
 fn costs_too_much(bytes: &[u8]) -> bool {
-    // every value skipped under a decoding quota: the accounting is the decoder's own
-    matches!(c07::decode(bytes, &candid::types::TypeEnv::new(), &[], Some(50_000_000), None), c07::Res::Quota)
+    bomb::announces_zero_sized_flood(bytes)
 }
 
 fn unmetered_message(req: &str) -> Option<Vec<u8>> {
@@ -286,7 +287,7 @@ impl Ctx {
         }
         if let Some(bytes) = unmetered_message(req) {
             if costs_too_much(&bytes) {
-                self.out.stat("skipped:unmetered-message-over-50M-cost");
+                self.out.stat("skipped:message-announces-zero-sized-flood");
                 return "skip".to_string();
             }
         }
